@@ -11,7 +11,7 @@ import random
 PID = 'C19'
 HARNESS = 'h_c19'
 MODEL_MODULE = 'V.C19.Model'
-READY = False
+READY = True
 RULE = ('cases = (active level 0..6, prefix size 0..80, 0..4 groups (levels 0..5, captions incl. empty) x 0..6 options: names 1..60 bytes, '
         'alias/no alias, negatable, level 0..5, flag or string value, argument name absent/empty/1..40 bytes, implicit value, default '
         '(command-line safe, or one of the unsafe shapes blank/quote/backslash/empty), description 0..200 bytes with % sequences); '
@@ -65,7 +65,8 @@ def decode(c):
             alias, neg, level, flag = nx(), nx() != 0, nx(), nx() != 0
             arg, impl, dflt = ost(), ost(), ost()
             desc = st()
-            opts.append({'name': name, 'alias': alias, 'neg': neg, 'level': level, 'flag': flag,
+            opts.append({'arg_raw': arg, 'impl_raw': impl,
+                         'name': name, 'alias': alias, 'neg': neg, 'level': level, 'flag': flag,
                          'arg': arg if arg is not None else ([] if flag else list(b'<arg>')),
                          'implicit': flag or impl is not None,
                          'impstr': impl if impl else [49],
@@ -373,7 +374,7 @@ FIXED = [
     # empty default on a required-argument option
     [0, 0, 1] + enc_str('') + [0, 2] + _opt('n', dflt='', desc='') + _opt('m', dflt='1', desc=''),
     # every decoration: alias + negatable + implicit + arg, empty arg on a non-implicit option, long names vs maxW
-    [4, 3, 2] + enc_str('') + [0, 2] + _opt('a', alias=97, neg=1, arg='<n>', impl='2', dflt='1', desc='A %A %D %I %% %x %') + _opt('b' * 60, neg=1, flag=1, desc='%D%'),
+    [4, 3, 1] + enc_str('') + [0, 2] + _opt('a', alias=97, neg=1, arg='<n>', impl='2', dflt='1', desc='A %A %D %I %% %x %') + _opt('b' * 60, neg=1, flag=1, desc='%D%'),
     [4, 0, 1] + enc_str('G') + [0, 3] + _opt('e', arg='', desc='empty arg') + _opt('f', alias=102, arg='', neg=1, desc='') + _opt('hidden', level=5, dflt='1', desc='never'),
     # level filtering across groups
     [1, 0, 3] + enc_str('Main') + [0, 1] + _opt('x', level=1, dflt='1', desc='d') + enc_str('Sub') + [2, 1] + _opt('y', dflt='2', desc='d') + enc_str('Sub2') + [1, 2] + _opt('z', level=2, dflt='3', desc='d') + _opt('w', level=1, dflt='4', desc='%D'),
@@ -382,18 +383,48 @@ FIXED = [
 ]
 
 
-def raw_structure(c):
-    return c
+def encode(active, prefix, groups):
+    e = [active, prefix, len(groups)]
+    for g in groups:
+        e += [len(g['cap'])] + list(g['cap']) + [g['level'], len(g['opts'])]
+        for o in g['opts']:
+            e += [len(o['name'])] + list(o['name']) + [o['alias'], 1 if o['neg'] else 0, o['level'], 1 if o['flag'] else 0]
+            for x in (o['arg_raw'], o['impl_raw'], o['dflt']):
+                e += [0] if x is None else [1, len(x)] + list(x)
+            e += [len(o['desc'])] + list(o['desc'])
+    return e
 
 
 def shrink(case, fails):
-    # remove trailing groups / options by re-encoding is involved; try cheap reductions only: zero the prefix, drop descriptions
-    best = list(case)
-    t = list(best)
-    t[1] = 0
-    if fails(t):
-        best = t
-    return best
+    import copy
+    active, prefix, groups = decode(case)
+    if encode(active, prefix, groups) != list(case):
+        return case
+    changed = True
+    while changed:
+        changed = False
+        if prefix and fails(encode(active, 0, groups)):
+            prefix, changed = 0, True
+        for gi in range(len(groups) - 1, 0, -1):          # keep group 0 (it is special)
+            t = groups[:gi] + groups[gi + 1:]
+            if fails(encode(active, prefix, t)):
+                groups, changed = t, True
+        for gi in range(len(groups)):
+            for oi in range(len(groups[gi]['opts']) - 1, -1, -1):
+                t = copy.deepcopy(groups)
+                del t[gi]['opts'][oi]
+                if fails(encode(active, prefix, t)):
+                    groups, changed = t, True
+        for gi in range(len(groups)):
+            for oi in range(len(groups[gi]['opts'])):
+                for fld, val in (('desc', []), ('impl_raw', None), ('arg_raw', None), ('alias', 0), ('neg', False)):
+                    if groups[gi]['opts'][oi][fld] in (val, None, 0, False, []):
+                        continue
+                    t = copy.deepcopy(groups)
+                    t[gi]['opts'][oi][fld] = val
+                    if fails(encode(active, prefix, t)):
+                        groups, changed = t, True
+    return encode(active, prefix, groups)
 
 
 def mutate(case, rnd):
